@@ -122,6 +122,55 @@ fn setup(c: &Case, attempt: usize) -> PlanSetup {
     PlanSetup { built, start, joints, poses }
 }
 
+/// Reference evaluation of one strategy (landing solution), re-implemented from the documented procedure:
+/// densify the pose sequence by check_step_m / check_step_rad, walk it with the library's own IK
+/// (first answer whose transition cost is within the limit, otherwise bisect down to the recursion depth).
+/// Returns the Cartesian trace (joints from LAND to PARK) or None when some transition would need RRT gap closing.
+pub fn reference_trace(robot: &rs_opw_kinematics::kinematics_with_shape::KinematicsWithShape, strategy: &[f64; 6], originals: &[nalgebra::Isometry3<f64>], check_step_m: f64, check_step_rad: f64, max_cost: f64, coeffs: &[f64; 6], depth: usize) -> Option<Vec<[f64; 6]>> {
+    type P = nalgebra::Isometry3<f64>;
+    let mut poses: Vec<P> = vec![originals[0]];
+    for w in originals.windows(2) {
+        let (a, b) = (&w[0], &w[1]);
+        let diff = b.translation.vector - a.translation.vector;
+        let ang = (b.rotation * a.rotation.inverse()).angle();
+        let steps = ((diff.norm() / check_step_m).ceil() as usize).max((ang / check_step_rad).ceil() as usize).max(1);
+        let step = diff / steps as f64;
+        for i in 1..steps {
+            let fr = i as f64 / steps as f64;
+            poses.push(P::from_parts((a.translation.vector + step * i as f64).into(), a.rotation.slerp(&b.rotation, fr)));
+        }
+        poses.push(*b);
+    }
+    fn cost(a: &[f64; 6], b: &[f64; 6], c: &[f64; 6]) -> f64 {
+        (0..6).map(|k| (a[k] - b[k]).abs() * c[k]).sum()
+    }
+    fn walk(robot: &rs_opw_kinematics::kinematics_with_shape::KinematicsWithShape, starting: &[f64; 6], from: &nalgebra::Isometry3<f64>, to: &nalgebra::Isometry3<f64>, d: usize, max_d: usize, max_cost: f64, coeffs: &[f64; 6]) -> Option<Vec<[f64; 6]>> {
+        use rs_opw_kinematics::kinematic_traits::Kinematics;
+        let sols = robot.kinematics.inverse_continuing(to, starting);
+        for n in &sols {
+            if cost(starting, n, coeffs) <= max_cost {
+                return Some(vec![*n]);
+            }
+        }
+        if d < max_d {
+            let mid = nalgebra::Isometry3::from_parts(from.translation.vector.lerp(&to.translation.vector, 0.5).into(), from.rotation.slerp(&to.rotation, 0.5));
+            let first = walk(robot, starting, from, &mid, d + 1, max_d, max_cost, coeffs)?;
+            let mid_j = *first.last().unwrap();
+            let second = walk(robot, &mid_j, &mid, to, d + 1, max_d, max_cost, coeffs)?;
+            Some(first.into_iter().chain(second.into_iter()).collect())
+        } else {
+            None
+        }
+    }
+    let mut trace = vec![*strategy];
+    for w in poses.windows(2) {
+        let prev = *trace.last().unwrap();
+        let ext = walk(robot, &prev, &w[0], &w[1], 0, depth, max_cost, coeffs)?;
+        trace.extend(ext);
+    }
+    Some(trace)
+}
+
 #[derive(Clone, Debug, PartialEq)]
 enum Outcome {
     Err(String),
@@ -393,7 +442,72 @@ impl Property for C12 {
                 if c.include && tail.len() > dens {
                     ctx.class("plan:bisection used");
                 }
+                // differential: the Cartesian part equals the reference walk of the chosen strategy
+                if c.include {
+                    let originals: Vec<nalgebra::Isometry3<f64>> = s.poses.iter().map(to_na).collect();
+                    match reference_trace(robot, &tail[0].joints, &originals, c.check_step_m, c.check_step_deg.to_radians(), max_cost, &coeffs, c.depth as usize) {
+                        Some(rt) => {
+                            let same = rt.len() == tail.len() && rt.iter().zip(tail.iter()).all(|(a, b)| (0..6).all(|k| (a[k] - b.joints[k]).abs() <= 1e-9));
+                            ensure!(same, "the Cartesian part of the plan is the documented walk (densify, follow the closest IK answer within the cost limit, bisect) from the chosen landing solution", "reference walk has {} waypoints, plan has {}; first difference at {:?}", rt.len(), tail.len(), rt.iter().zip(tail.iter()).position(|(a, b)| (0..6).any(|k| (a[k] - b.joints[k]).abs() > 1e-9)));
+                            ctx.class("plan:matches reference walk");
+                        }
+                        None => {
+                            return Err(viol!("the Cartesian part of the plan is the documented walk from the chosen landing solution", "the plan shows no RRT gap closing, yet the reference walk of its landing solution {:?} needs one", tail[0].joints));
+                        }
+                    }
+                }
                 outcomes.push((threads, Outcome::OkPlain));
+            }
+        }
+        // completeness under every schedule: a landing solution whose deterministic walk succeeds, is collision free and whose
+        // onboarding is unobstructed makes planning succeed whatever the thread count (no random re-planning is needed for it)
+        if outcomes.iter().any(|(_, o)| matches!(o, Outcome::Err(_))) {
+            use rs_opw_kinematics::kinematic_traits::Kinematics;
+            let originals: Vec<nalgebra::Isometry3<f64>> = s.poses.iter().map(to_na).collect();
+            let sols = no_panic(|| robot.inverse_continuing(&land, &s.start)).map_err(|m| viol!("no panic", "inverse_continuing: {}", m))?;
+            let mut wide = c.scene.safety.clone();
+            wide.to_environment += 0.05;
+            wide.to_robot_default += 0.05;
+            for sp in wide.special.iter_mut() {
+                if sp.2 >= 0.0 {
+                    sp.2 += 0.05;
+                }
+            }
+            wide.mode = 0;
+            let wide = wide.build();
+            for sol in &sols {
+                let rt = match reference_trace(robot, sol, &originals, c.check_step_m, c.check_step_deg.to_radians(), max_cost, &coeffs, c.depth as usize) {
+                    Some(t) => t,
+                    None => continue,
+                };
+                if rt.iter().any(|q| robot.collides(q)) {
+                    continue;
+                }
+                // limits: shifted representatives may make the onboarding cross the limits (known finding): require numeric containment
+                if (0..6).any(|k| sol[k] < lim.from[k] || sol[k] > lim.to[k]) {
+                    continue;
+                }
+                let dmax = (0..6).map(|k| (sol[k] - s.start[k]).abs()).fold(0.0, f64::max);
+                let steps = ((dmax / (rrt_step / 4.0)).ceil() as usize).max(1);
+                let mut free = true;
+                for i in 0..=steps {
+                    let t = i as f64 / steps as f64;
+                    let q: [f64; 6] = std::array::from_fn(|k| s.start[k] + t * (sol[k] - s.start[k]));
+                    if !robot.near(&q, &wide).is_empty() {
+                        free = false;
+                        break;
+                    }
+                }
+                if free {
+                    let errs: Vec<String> = outcomes.iter().filter_map(|(t, o)| if let Outcome::Err(e) = o { Some(format!("{} threads: {}", t, e)) } else { None }).collect();
+                    return Err(viol!(
+                        "whether planning succeeds does not depend on thread scheduling when no random re-planning is needed",
+                        "the landing solution {:?} needs no RRT gap closing, all {} waypoints of its walk are collision free and the straight onboarding segment from the start is free with 5 cm extra clearance, yet planning failed: {:?}",
+                        sol,
+                        rt.len(),
+                        errs
+                    ));
+                }
             }
         }
         // (7) scheduling independence
